@@ -96,8 +96,13 @@ class Ctx:
         """Drop harness/inpkg files into the snapshot's package and run `go test -run`."""
         self.snapshot_repo()
         dst = os.path.join(self.repo, pkg)
-        for f in files:
-            shutil.copy(os.path.join(VERIF, "harness", "inpkg", f), os.path.join(dst, "zz_verif_" + f))
+        for f in sorted(os.listdir(os.path.join(VERIF, "harness", "inpkg"))):   # the in-package drivers share helpers
+            if f.endswith(".go") and pkg == "./cmd/whawty-auth":
+                shutil.copy(os.path.join(VERIF, "harness", "inpkg", f), os.path.join(dst, "zz_verif_" + f))
+        if os.path.isdir(os.path.join(VERIF, "harness", "go", "concrete")):
+            cdst = os.path.join(self.repo, "verifconcrete")
+            shutil.rmtree(cdst, ignore_errors=True)
+            shutil.copytree(os.path.join(VERIF, "harness", "go", "concrete"), cdst)
         e = goenv()
         e.update(env or {})
         cmd = ["go", "test", "-vet=off", "-count=1", "-tags", tags, "-timeout", "%ds" % timeout, "-run", run, pkg]
